@@ -1128,3 +1128,162 @@ def h_delete_snapshot(h: H):
         h.ensure("OUTCOME:True-only-after-a-successful-commit", len(commits) >= 1)
     if out == "ok" and val is False:
         h.ensure("OUTCOME:False-means-nothing-committed", len(commits) == 0)
+
+
+# =================================================================================== markers (GUAR-tx) and writers
+def h_register_inflight(h: H):
+    c = h.ctx
+    st = Store(h, fault_classes=["OSError"], max_faults=1)
+    st.install(h.reg)
+    tx = tx_object(h, st, markers=PList([]))
+    dumped = []
+
+    def dumps(I, a, k):
+        dumped.append(a[0])
+        return SStr(I.ctx.fresh_str("json"))
+    h.reg.modfuncs["json.dumps"] = dumps
+    path = h.str("file_path")
+    out, val = h.run(f"{TX}:Transaction._register_inflight", [tx, path])
+    writes = [e for e in st.events if e["op"] == "write_file"]
+    if out == "raise":
+        h.ensure("GUAR-tx:marker-write-failure-propagates(fail-closed)", bool(val.fields.get("fault")) and not tx.fields["_inflight_markers"].items)
+        return
+    h.ensure("GUAR-tx:exactly-one-marker-written", len(writes) == 1)
+    if writes:
+        mp = writes[0]["path"]
+        h.ensure("GUAR-tx:marker-lives-under-metadata/inflight-and-ends-with-.inflight",
+                 z3.And(z3.PrefixOf(z3.StringVal("metadata/inflight/"), mp), z3.SuffixOf(z3.StringVal(".inflight"), mp)))
+        h.ensure("GUAR-tx:marker-remembered-for-cleanup", len(tx.fields["_inflight_markers"].items) == 1 and
+                 z3.is_true(z3.simplify(pyops.str_z(tx.fields["_inflight_markers"].items[0]) == mp)))
+        h.ensure("GUAR-tx:marker-payload-names-the-protected-path(without-leading-slash)",
+                 len(dumped) == 1 and isinstance(dumped[0], PDict) and "file_path" in dumped[0].d and
+                 z3.is_true(z3.simplify(pyops.str_z(dumped[0].d["file_path"]) == z3.Function("str.lstrip[2f]", STR, STR)(path.z))) or
+                 z3.is_true(z3.simplify(pyops.str_z(dumped[0].d["file_path"]) == path.z)) if dumped else False)
+
+
+def h_append_data(h: H):
+    """marker BEFORE the data file; a rejected append writes nothing / leaves only registered files; accepted -> queued once."""
+    c = h.ctx
+    st = Store(h)
+    st.install(h.reg)
+    misc.install_uuid(h.reg, c)
+    tx = tx_object(h, st, written=PList([]), markers=PList([]), operations=PList([]))
+    order = []
+    has_schema_arg = c.flip("schema-arg")
+    schema = SObj("Schema", {"schema_id": 1, "fields": PList([])}, label="arg-schema") if has_schema_arg else None
+    table_schema = SObj("Schema", {"schema_id": 1, "fields": PList([])}, label="table-schema")
+
+    def resolve(I, fv, a, k):
+        order.append("resolve")
+        return None if I.ctx.flip("no-persisted-schema") else table_schema
+    h.reg.contracts[f"{TX}:Transaction._resolve_table_schema"] = resolve
+
+    def validate(I, fv, a, k):
+        order.append("validate")
+        if I.ctx.flip("schema-diverges"):
+            raise PyRaise(SExc("ValueError", origin="schema mismatch", fields={"reject": True}))
+    h.reg.contracts[f"{TX}:Transaction._validate_schema_against_table"] = validate
+
+    def register(I, fv, a, k):
+        order.append(("marker", a[-1]))
+        if I.ctx.flip("marker-write-fails"):
+            raise PyRaise(SExc("OSError", origin="marker write fails", fields={"fault": True}))
+        a[0].fields["_inflight_markers"].items.append(SStr(I.ctx.fresh_str("marker")))
+    h.reg.contracts[f"{TX}:Transaction._register_inflight"] = register
+    fmgr = tx.fields["file_manager"]
+    dfm = h.obj("DataFileManager", storage=st.obj)
+    fmgr.fields["data_file_manager"] = dfm
+
+    def wdf(I, fv, a, k):
+        order.append(("write", k.get("file_path"), k.get("iceberg_schema")))
+        if I.ctx.flip("write-fails"):
+            raise PyRaise(SExc("ArrowInvalid", origin="records do not fit the schema", fields={"reject": True}))
+        from pyvc.values import EnumVal
+        return SObj("DataFile", {"file_path": k.get("file_path"), "file_format": EnumVal("FileFormat", "PARQUET", "parquet"), "partition_values": PDict({}),
+                                 "record_count": SInt(I.ctx.fresh_int("n")), "file_size_in_bytes": SInt(I.ctx.fresh_int("sz")), "column_sizes": None,
+                                 "value_counts": None, "null_value_counts": None, "lower_bounds": TheoryObj("symdict"), "upper_bounds": TheoryObj("symdict"),
+                                 "checksum": SStr(I.ctx.fresh_str("sha"))})
+    h.reg.contracts["data_operations:DataFileManager.write_data_file"] = wdf
+    queued = []
+
+    def append_files(I, fv, a, k):
+        order.append(("queue", a[-1]))
+        queued.append(a[-1])
+        if I.ctx.flip("queue-validation-fails"):
+            raise PyRaise(SExc("ValueError", origin="append_files rejects", fields={"reject": True}))
+        a[0].fields["_operations"].items.append(PDict({"type": "append_files", "files": a[-1]}))
+        return a[0]
+    h.reg.contracts[f"{TX}:Transaction.append_files"] = append_files
+    records = TheoryObj("symiter", fields={"mk": lambda I: PDict({})})
+    out, val = h.run(f"{TX}:Transaction.append_data", [tx, records, schema])
+    marker_i = [i for i, o in enumerate(order) if isinstance(o, tuple) and o[0] == "marker"]
+    write_i = [i for i, o in enumerate(order) if isinstance(o, tuple) and o[0] == "write"]
+    if write_i:
+        h.ensure("GUAR-tx:marker-registered-BEFORE-the-data-file-is-written", len(marker_i) == 1 and marker_i[0] < write_i[0])
+        h.ensure("GUAR-tx:marker-names-the-file-that-is-written", z3.is_true(z3.simplify(pyops.str_z(order[marker_i[0]][1]) == pyops.str_z(order[write_i[0]][1]))) if marker_i else False)
+        fp = pyops.str_z(order[write_i[0]][1])
+        h.ensure("WRITE-ONCE:data-file-name-carries-a-fresh-uuid-token", z3.And(z3.PrefixOf(z3.StringVal("data/auto_"), fp), z3.SuffixOf(z3.StringVal(".parquet"), fp),
+                                                                               z3.Contains(fp, z3.SubString(h.ctx.ghost["uuid"]["hex"][0], 0, 16)) if h.ctx.ghost["uuid"]["hex"] else z3.BoolVal(False)))
+        used = order[write_i[0]][2]
+        h.ensure("SCHEMA:file-written-with-the-argument-or-else-the-persisted-schema", used is (schema if has_schema_arg else table_schema))
+    if out == "raise":
+        h.ensure("REJECT-CLEAN:a-rejected-append-queues-nothing", not tx.fields["_operations"].items)
+        if not marker_i:
+            h.ensure("REJECT-CLEAN:rejected-before-any-write=>storage-untouched", not st.events and not write_i)
+        if val.cls == "ValueError" and not order[-1:] == [("x",)] and "resolve" in order and not has_schema_arg and not marker_i:
+            h.cover("NO-SCHEMA:reachable")
+        if write_i and not (val.fields.get("reject") and queued):
+            pass
+        return
+    h.ensure("ACCEPT:written-file-recorded-for-rollback", len(tx.fields["_written_files"].items) == 1)
+    h.ensure("ACCEPT:queued-exactly-once", len(queued) == 1 and len(tx.fields["_operations"].items) == 1)
+    if not has_schema_arg:
+        h.ensure("NO-SCHEMA:without-any-schema-nothing-is-written", "resolve" in order)
+
+
+def h_create_manifest(kind: str):
+    def harness(h: H):
+        c = h.ctx
+        st = Store(h, fault_classes=["OSError"], max_faults=1)
+        st.install(h.reg)
+        misc.install_clock(h.reg, c)
+        misc.install_uuid(h.reg, c)
+        fm = h.obj("FileManager", storage=st.obj, manifests_path="metadata/manifests")
+        hooked = []
+
+        def hook_call(I, o, a, k):
+            hooked.append((a[0], len(st.events)))
+            if I.ctx.flip("hook-fails"):
+                raise PyRaise(SExc("OSError", origin="marker write fails", fields={"fault": True}))
+        h.reg.theory_methods[("hook", "__call__")] = hook_call
+        hook = TheoryObj("hook") if c.flip("with-hook") else None
+        h.reg.modfuncs["fastavro.writer"] = lambda I, a, k: None
+        h.reg.modfuncs["io.BytesIO"] = lambda I, a, k: TheoryObj("bytesio")
+        h.reg.theory_methods[("bytesio", "getvalue")] = lambda I, o, a, k: SBytes(I.ctx.fresh_str("avro_bytes"))
+        sid = SInt(c.fresh_int("snapshot_id"))
+        h.assume(sid.z != 0)
+        if kind == "manifest":
+            from pyvc.values import EnumVal
+            out, val = h.run(f"{FMOD}:FileManager.create_manifest_file", [fm, PList([]), EnumVal("ManifestContent", "DATA", 0), sid],
+                             {"existing_files": PList([]), "sequence_number": SInt(c.fresh_int("seq")), "pre_write_hook": hook})
+        else:
+            out, val = h.run(f"{FMOD}:FileManager.create_manifest_list_file", [fm, PList([]), sid], {"pre_write_hook": hook})
+        writes = [e for e in st.events if e["op"] == "write_file"]
+        if out == "raise":
+            h.ensure("GUAR-tx:failed-protection-or-write=>error-propagates", bool(val.fields.get("fault")))
+            if hooked and str(val.origin).startswith("marker"):
+                h.ensure("GUAR-tx:file-never-written-unprotected", not writes)
+            return
+        h.ensure("WRITE-ONCE:exactly-one-file-written", len(writes) == 1)
+        if not writes:
+            return
+        p = writes[0]["path"]
+        hx = h.ctx.ghost["uuid"]["hex"]
+        h.ensure("WRITE-ONCE:name-under-metadata/manifests-with-a-fresh-uuid-token",
+                 z3.And(z3.PrefixOf(z3.StringVal("metadata/manifests/"), p), z3.Contains(p, z3.SubString(hx[0], 0, 8))) if hx else z3.BoolVal(False))
+        if hook is not None:
+            h.ensure("GUAR-tx:protection-hook-called-with-the-path-BEFORE-the-write",
+                     len(hooked) == 1 and hooked[0][1] <= writes[0]["n"] and z3.is_true(z3.simplify(pyops.str_z(hooked[0][0]) == p)))
+        rp = val if kind == "list" else val.fields.get("manifest_path")
+        h.ensure("ORDER:returned-path-is-the-file-just-written(durably,via-write_file)", z3.is_true(z3.simplify(pyops.str_z(rp) == p)))
+    return harness
